@@ -303,6 +303,41 @@ def task(t):
     return dict(n=n, states=states, distinct=len(distinct), violations=viols, sample=sample)
 
 
+# names whose wire form is k octets longer than their character count (multi-octet characters, escaped quotes and backslashes),
+# with and without the word the server puts after the active script's name
+SURPLUS = ([""] + ["\u00e9" * k for k in (1, 2, 3, 5, 6, 7, 8, 16)] + ['"' * k for k in (1, 2, 6, 7, 8, 16)] + ["\\" * k for k in (1, 7, 8)]
+           + ["\u20ac" * k for k in (1, 3, 4, 8)] + ["\U0001F600" * k for k in (1, 2, 3)] + ['\u00e9"\\\u20ac' * k for k in (1, 2, 3)])
+TAILS = ["", " ACTIVE", "ACTIVE", " rules-active", " Active", ' "ACTIVE"', " ACTIVE "]
+
+
+def names_task(t):
+    """E3: listscripts over stores {a, <name>} for every name = SURPLUS x TAILS, with nothing / a / the name active, names quoted or
+    sent as literals: the reported active script and list must be the server's"""
+    lo, hi = t
+    names = [p + q for p in SURPLUS for q in TAILS if p + q][lo:hi]
+    viols = []
+    n = 0
+    distinct = set()
+    for nm in names:
+        for active in (None, "a", nm):
+            for lit in (0, 1):
+                for order in ((nm, "a"), ("a", nm)):
+                    srv = refms.RefServer(ch=refms.FixedChoices({"list-name-literal": lit}), store={k: b"keep;\r\n" for k in order}, active=active)
+                    s = wire.open_session(srv)
+                    o = s.call("listscripts")
+                    n += 1
+                    want = (active, sorted(x for x in order if x != active))
+                    ok = o.kind == "ret" and isinstance(o.value, tuple) and len(o.value) == 2 and o.value[0] == want[0] and sorted(o.value[1] or []) == want[1]
+                    distinct.add((len(nm.encode("utf-8")) - len(nm), active is None, active == nm, lit, ok))
+                    if not ok:
+                        viols.append({"property": "C15", "engine": "wire",
+                                      "signature": ["C15", "listscripts", "names:" + ("literal" if lit else "quoted"), "wrong-listing" if o.kind == "ret" else (o.exc_type or o.kind)],
+                                      "what": "server holds %r with %r active; listscripts gives %s" % (list(order), active, o.brief()[:160]),
+                                      "case": {"names_case": True, "name": nm, "active": active, "lit": lit, "order": list(order)},
+                                      "witness": "listscripts on store %r active=%r" % (list(order), active), "observed": o.brief()[:160]})
+    return dict(n=n, states=0, distinct=len(distinct), violations=viols, sample=None)
+
+
 def run(tier, seed):
     # quick: depth 3 with one deviation; thorough: depth 4 with one deviation AND depth 3 with two (the product depth 4 x two deviations
     # over 21 events, 6 status wordings and 6 cut choices ran for more than an hour)
@@ -316,6 +351,8 @@ def run(tier, seed):
                     # (the special-purpose stores - non-ASCII names under a debug client, empty bodies, exact read size - one event less deep)
                     tasks.append((init_i, version, cdepth if init_i < 4 else cdepth - 1, cbound, first))
     res = pool.run_tasks("checks.c15:task", tasks)
+    nn = len([1 for p in SURPLUS for q in TAILS if p + q])
+    res += pool.run_tasks("checks.c15:names_task", [(lo, lo + 16) for lo in range(0, nn, 16)])
     n = sum(r["n"] for r in res)
     viols = []
     for r in res:
@@ -333,6 +370,10 @@ def run(tier, seed):
 
 def replay(payload):
     c = payload["case"]
+    if c.get("names_case"):
+        allnames = [p + q for p in SURPLUS for q in TAILS if p + q]
+        i = allnames.index(c["name"])
+        return [v for v in names_task((i, i + 1))["violations"] if v["case"] == c]
     hist = tuple(tuple(e) for e in c["history"])
     bad, step, srv, ch = run_history(c["init"], c["version"], hist, c["choices"], seg_choice=c.get("bound", 1), shadow=not any(c["choices"]))
     if bad:
